@@ -10,6 +10,8 @@ Example.run_pytest (C19 three-way comparison).
 """
 from __future__ import annotations
 
+import contextlib
+
 import json
 
 from .. import common
@@ -304,7 +306,8 @@ def three_way(src, cats):
     sink = io.StringIO()
     for name in ("run_inline", "run_pytest"):
         try:
-            with contextlib.redirect_stdout(sink), contextlib.redirect_stderr(sink):
+            # run_inline executes the tests in this process: their relative writes (the probe files) go to a scratch directory
+            with contextlib.redirect_stdout(sink), contextlib.redirect_stderr(sink), _scratch_cwd():
                 ex = Example(dict(zip(("test_a.py", "test_b.py"), src.split(SEP))))
                 if name == "run_inline":
                     cap = _Capture()
@@ -316,6 +319,19 @@ def three_way(src, cats):
         except BaseException as e:  # noqa: BLE001
             out[name] = "EXC " + type(e).__name__ + ": " + str(e)[:200]
     return out
+
+
+@contextlib.contextmanager
+def _scratch_cwd():
+    import os
+    import tempfile
+    here = os.getcwd()
+    with tempfile.TemporaryDirectory(prefix="isnap_tw_") as d:
+        os.chdir(d)
+        try:
+            yield
+        finally:
+            os.chdir(here)
 
 
 class _Capture:
